@@ -9,7 +9,8 @@ task steps, immediate answers and queue insertions offered by the query handler 
 registered at that instant, any route, any draw), queue timer firings at any time, unregister-all, close.
 The theorems are about the **repaired** code (D5: queued answers of a withdrawn service are dropped; D6: an
 announcement task stops when its info is no longer the registered one); `GenFacts/Goodbye.lean` fails to build on
-a tree without the repairs.  `lower` is `str.lower`, arbitrary.  Numbers (125, 3) are those of the English statement. -/
+a tree without the repairs.  `lower` is `str.lower`, arbitrary.  Numbers (125, 3) are those of the English statement; in the code
+they are the range and the interval of the two loops that send goodbyes (`C08_goodbye_loops`). -/
 namespace Zc.Goodbye
 open Zc Zc.Register Zc.GenFacts.Goodbye
 
@@ -18,6 +19,20 @@ variable (lower : String → String)
 /-- the goodbye datagram of `s`: TTL-0 copies of PTR, SRV, TXT, and of the addresses and the NSEC record unless the
 host name is shared -/
 def goodbyePkt (s : Svc) (shared : Bool) : Pkt := broadcastPkt s (some 0) (!shared)
+
+/-- the count and the spacing of the goodbyes are those of the code that sends them: `_async_send_repeatedly` (goodbyes of
+`async_unregister_service` since the D27 repair) and the loop of `async_unregister_all_services` (close / unregister-all) iterate three
+times, sleep before every transmission but the first, 125 ms; and they agree with the parameters (`broadcast_count`, `unregisterTime`) the
+model's goodbye task (`Task.step`) and close sequence (`allStep`) are written with, so every theorem below speaks about those loops.
+(Third review: the count used to be tied to `_async_broadcast_service` only, which no longer sends goodbyes.) -/
+theorem C08_goodbye_loops :
+    Gen.Register.goodbye_count = 3 ∧ Gen.Register.goodbye_all_count = 3 ∧ Gen.Register.goodbye_interval = 125 ∧
+    Gen.Register.goodbye_all_interval = 125 ∧
+    Gen.Register.goodbye_count = Gen.Register.broadcast_count ∧ Gen.Register.goodbye_all_count = Gen.Register.broadcast_count ∧
+    (∀ i, Gen.Register.goodbye_sleeps i = Gen.Register.broadcast_sleeps i) ∧ (∀ i, Gen.Register.goodbye_all_sleeps i = Gen.Register.broadcast_sleeps i) ∧
+    Gen.Register.goodbye_interval = Gen.unregisterTime ∧ Gen.Register.goodbye_all_interval = Gen.unregisterTime :=
+  ⟨goodbye_loops_eq.1, goodbye_loops_eq.2.1, goodbye_loops_eq.2.2.1, goodbye_loops_eq.2.2.2,
+   goodbye_loops.1, goodbye_loops.2.1, goodbye_loops.2.2.1, goodbye_loops.2.2.2.1, goodbye_loops.2.2.2.2.1, goodbye_loops.2.2.2.2.2⟩
 
 /-- **Goodbyes.**  `async_unregister_service` at `now` removes the service, sends nothing itself and starts a task whose
 three steps — at `now`, `now + 125`, `now + 250` — each multicast the goodbye datagram: TTL-0 copies of PTR, SRV and TXT,
